@@ -951,6 +951,18 @@ func c12TraceCase(i int, raw []byte) Result {
 		}
 		res.Events = append(res.Events, c12Events(&c, r, c12Project(chunks, r, cfg.api), cfg, c.OnlyMode)...)
 	}
+	for _, ob := range c12Objects() { // segments recorded from a reuse history: re-run on a fresh object
+		if ob.cfg.name != c.OnlyCfg {
+			continue
+		}
+		r := c12Render(&c, ob.cfg.maxChars, ob.cfg.minChars, "direct")
+		chunks, err := ob.mk()(r.doc)
+		res.Evals++
+		if err != nil {
+			return fail("error", "C12:error:"+ob.cfg.api, ob.cfg.name+": "+err.Error(), map[string]interface{}{"case": json.RawMessage(raw)})
+		}
+		res.Events = append(res.Events, c12Events(&c, r, c12Project(chunks, r, ob.cfg.api), ob.cfg, "direct")...)
+	}
 	return res
 }
 
@@ -960,6 +972,8 @@ func c12(mode, in, out string) error {
 		return runCases(in, out, c12TraceCase)
 	case "pdf":
 		return runCases(in, out, c12PdfCase)
+	case "reuse":
+		return runCases(in, out, c12ReuseRun)
 	case "replay":
 		return runCases(in, out, c12ReplayCase)
 	case "record":
